@@ -1,7 +1,5 @@
-import Ntrip.Guards.Apps
 import Ntrip.Proofs.PipeTerm
 import Ntrip.Proofs.SegmentRefine
-import Ntrip.Generated.Skeletons
 /-!
 # C11 — when an application's message handling returns, all output has been written
 
@@ -63,28 +61,5 @@ theorem not_waiting_loses_output : ∃ s, Reach badCfg s ∧ s.mainReturned = tr
   have r8 := Reach.step r7 (Step.mainClose _ rfl rfl (by decide) rfl rfl rfl)
   have r9 := Reach.step r8 (Step.mainReturn _ rfl rfl rfl rfl (by intro h; cases h))
   exact ⟨_, r9, rfl, by decide⟩
-
-/-- Tie T1: both applications close every writer channel and wait for the writers before
-    returning (displayrtcm3: `close messageChan` then `<-displayDone`, the writer closing
-    `displayDone` on exit; rtcmfilter: a `sync.WaitGroup` — `Add` before each `go`, `Done`
-    deferred in each writer, `close` of every channel, `Wait`). -/
-theorem tie_skeletons :
-    Gen.skeleton_display_HandleMessages = some ["makechan cap=2", "makechan cap=0", "go func{",
-      "defer close displayDone", "}", "close messageChan", "recv displayDone"] ∧
-    Gen.skeleton_display_DisplayMessages = some ["for", "recv messageChan", "return", "return"] ∧
-    Gen.skeleton_filter_HandleMessages = some ["makechan cap=0", "sync writers.Add", "go func{", "defer sync writers.Done", "}",
-      "makechan cap=0", "sync writers.Add", "go func{", "defer sync writers.Done", "}",
-      "makechan cap=0", "sync writers.Add", "go func{", "defer sync writers.Done", "}",
-      "range channels", "close channels[i]", "sync writers.Wait"] ∧
-    Gen.skeleton_filter_writeRTCMMessages = some ["for", "recv ch", "return", "return", "return"] ∧
-    Gen.skeleton_filter_writeReadableMessages = some ["for", "recv ch", "return"] := by
-  repeat' constructor
-  all_goals decide
-
-/-- Tie T1 (guards): rtcmfilter. -/
-theorem tie_guards_filter : type_of% Ntrip.Guards.filter := Ntrip.Guards.filter
-
-/-- Tie T1 (guards): displayrtcm3. -/
-theorem tie_guards_display : type_of% Ntrip.Guards.display := Ntrip.Guards.display
 
 end Ntrip.C11
